@@ -31,6 +31,8 @@ use crate::client_internals::KafkaClientInternals;
 pub mod metadata;
 mod network;
 mod state;
+#[cfg(feature = "verif_hooks")]
+pub mod verif;
 
 // ~ re-export (only) certain types from the protocol::fetch module as
 // 'client::fetch'.
@@ -1422,6 +1424,14 @@ impl KafkaClient {
         //         .remove(topic)
         //         .unwrap_or_default(),
         // )
+    }
+}
+
+#[cfg(feature = "verif_hooks")]
+impl KafkaClient {
+    /// Verification hook: sets the last used correlation id.
+    pub fn verif_set_correlation(&mut self, correlation: i32) {
+        self.state.verif_set_correlation(correlation);
     }
 }
 
